@@ -95,6 +95,10 @@ inductive CallPath where
   | viaExecute (origin : Address)              -- call data handed to `execute.execute` by anybody
   | inPacket                                   -- call data of a received packet: module → packet → execute → method
   | module (a : Address)                       -- the chain's Go code: keeper `CallEVM` with `from = a`
+  | delegate (origin : Address) (c : Address)  -- c DELEGATECALLs the method's code: c's storage, msg.sender = c's own caller
+  | callcode (origin : Address) (c : Address)  -- c CALLCODEs the method's code: c's storage, msg.sender = c
+  | static (origin : Address) (c : Address)    -- c STATICCALLs the method: msg.sender = c, no state change possible
+  | ctor (origin : Address) (c : Address)      -- CALL from inside the constructor of the contract being created at c
   deriving Repr, DecidableEq
 
 /-- the `execute` contract calls out with its own address as sender. -/
@@ -104,6 +108,18 @@ def callerOf (k : Consts) : CallPath → Address
   | .viaExecute _ => k.executeC
   | .inPacket => k.executeC
   | .module a => a
+  | .delegate o _ => o
+  | .callcode _ c => c
+  | .static _ c => c
+  | .ctor _ c => c
+
+/-- does the method's code run in the TARGET contract's own storage context with write access? DELEGATECALL and
+CALLCODE run it in the calling contract's storage, STATICCALL forbids writes. -/
+def writesTarget : CallPath → Bool
+  | .delegate _ _ => false
+  | .callcode _ _ => false
+  | .static _ _ => false
+  | _ => true
 
 /-- the dispatcher + guard of a system contract over an abstract contract state `σ` with abstract method
 bodies (`none` = the body itself reverts). Returns the new state and "did not revert". -/
@@ -113,12 +129,20 @@ def call {σ : Type} (k : Consts) (body : Method → σ → Option σ) (m : Meth
   | some g =>
     if permits k g (callerOf k cp) then
       match body m s with
-      | some s' => (s', true)
+      | some s' => if writesTarget cp then (s', true) else (s, true)
       | none => (s, false)
     else (s, false)
 
 /-- verdict of the guard alone (what the exhaustive table run compares). -/
 def guardVerdict (k : Consts) (m : Method) (cp : CallPath) : Option Bool :=
   (guardOf m).map (fun g => permits k g (callerOf k cp))
+
+/-- `PostTxProcessing` (x/xibc/core/packet/keeper/evm_hooks.go): a log is interpreted as `PacketSent` — and makes the
+keeper commit a packet and bump the sequence — only if the EMITTING address is the packet contract. -/
+def hookAccepts (k : Consts) (logAddr : Address) : Bool := logAddr == k.packetC
+
+/-- the hook over an abstract keeper state: `send` is what `SendPacket` would do with the logged packet. -/
+def hook {σ : Type} (k : Consts) (send : σ → σ) (logAddr : Address) (s : σ) : σ :=
+  if hookAccepts k logAddr then send s else s
 
 end TM.Guard
